@@ -1,7 +1,7 @@
 (* C01 (curve classes) -- every merge tree of a curve metric computes on the concatenation of its
    in-order stream of batches; for AUROC the result moreover depends only on the multiset. *)
 From Coq Require Import ZArith List Bool QArith Qcanon Permutation.
-From TE Require Import Base.Val Algebra.Metric Algebra.MergeTree Algebra.Cache Models.Curves Proofs.CurvesP.
+From TE Require Import Base.Val Algebra.Metric Algebra.MergeTree Algebra.Cache Models.Curves Proofs.CurvesP Proofs.CurvesPR.
 Import ListNotations.
 
 (* generic for the ten classes (all are [list_cache] instances): update appends, merge appends one
@@ -40,6 +40,10 @@ Theorem mcauroc_any_sharding_any_order : forall c t t',
   cmp mcauroc_metric c (run mcauroc_metric c t) = cmp mcauroc_metric c (run mcauroc_metric c t').
 Proof. exact mcauroc_any_order. Qed.
 
+(* the PR curve (hence AUPRC and recall@precision, functions of it) depends only on the multiset of samples *)
+Theorem bprc_any_order : forall l l' : list sample, Forall (fun x => (0 < wt x)%Qc) l -> Permutation l l' -> bprc_algo l = bprc_algo l'.
+Proof. exact bprc_algo_perm. Qed.
+
 (* non-vacuity: nested merge with an empty shard and a post-merge update *)
 Example bauroc_tree_example :
   let w := mkq 1%Z 1%positive in
@@ -56,3 +60,4 @@ Print Assumptions bprc_merge_tree.
 Print Assumptions mcauroc_merge_tree.
 Print Assumptions bauroc_any_sharding_any_order.
 Print Assumptions mcauroc_any_sharding_any_order.
+Print Assumptions bprc_any_order.
